@@ -77,6 +77,20 @@ def cases(tier, seed):
     return cs
 
 
+def _mag(x, case, ctx, salt=0):
+    """overall magnitude 1e-15 / 1e15 on one core for a sixth of the non-integer cases each (reductions are homogeneous: the allowances scale along)"""
+    import torchtt
+    if case.get('vals') == 'int' or x.cores[0].dtype in (torch.float32, torch.complex64):
+        return x
+    k = (case['seed'] + salt) % 6
+    if k not in (1, 4):
+        return x
+    f = 1e-15 if k == 1 else 1e15
+    ctx.count('operand-magnitude:%g' % f)
+    j = (case['seed'] // 6) % len(x.cores)
+    return torchtt.TT([c * f if i_ == j else c for i_, c in enumerate(x.cores)])
+
+
 def run_case(case, ctx):
     g = gens.tgen(case['seed'])
     globals()['run_' + case['gen']](case, ctx, g)
@@ -103,7 +117,7 @@ def _scalar_out(ctx, key, what, out):
 def run_norm(case, ctx, g):
     dt = dn.dtype_of(case['dtype'])
     d = len(case['N'])
-    x = gens.make_tt(case['N'], case['R'], dt, case['vals'], g, M=case['M'])
+    x = _mag(gens.make_tt(case['N'], case['R'], dt, case['vals'], g, M=case['M']), case, ctx)
     kind = 'operator' if case['M'] else 'tensor'
     variant = 'tracked' if case['tracked'] else 'plain'
     ev = 'norm/%s/order%s/%s' % (kind, '1' if d == 1 else '>1', variant)
@@ -162,7 +176,7 @@ def run_sum(case, ctx, g):
     dt = dn.dtype_of(case['dtype'])
     d = len(case['N'])
     ttm = case['M'] is not None
-    x = gens.make_tt(case['N'], case['R'], dt, case['vals'], g, M=case['M'])
+    x = _mag(gens.make_tt(case['N'], case['R'], dt, case['vals'], g, M=case['M']), case, ctx)
     axes = case['axes']
     kind = 'operator' if ttm else 'tensor'
     ev = 'sum/%s/%s' % (kind, 'all' if axes is None else 'partial')
@@ -191,7 +205,7 @@ def run_dot(case, ctx, g):
     dt = dn.dtype_of(case['dtype'])
     N, axes = case['N'], case['axes']
     d = len(N)
-    a = gens.make_tt(N, case['Ra'], dt, case['vals'], g)
+    a = _mag(gens.make_tt(N, case['Ra'], dt, case['vals'], g), case, ctx)
     Nb = N if axes is None else [N[i] for i in axes]
     b = gens.make_tt(Nb, case['Rb'], dt, case['vals'], g)
     ev = 'dot/%s' % ('full' if axes is None else 'partial')
@@ -220,7 +234,7 @@ def run_bilinear(case, ctx, g):
     d = len(M)
     x = gens.make_tt(M, case['Rx'], dt, case['vals'], g)
     A = gens.make_tt(N, case['RA'], dt, case['vals'], g, M=M)
-    y = gens.make_tt(N, case['Ry'], dt, case['vals'], g)
+    y = _mag(gens.make_tt(N, case['Ry'], dt, case['vals'], g), case, ctx, salt=3)
     ctx.count('bilinear')
     key = 'bilinear'
     what = 'bilinear_form M=%s N=%s Rx=%s RA=%s Ry=%s %s %s' % (M, N, case['Rx'], case['RA'], case['Ry'], case['dtype'], case['vals'])
